@@ -391,7 +391,8 @@ class BundleFlattener(ElabPass):
             # Note at this point in elaboration, these Anon-Bundles are the sole remaining place `PortRef`s can hide.
             # They are also the last place where `BundleRef`s will be resolved,
             # although the others just have been, earlier in this elaborator pass.
-            if isinstance(attr, (BundleRef, PortRef)):
+            # A port reference may itself have resolved to a bundle reference: follow until neither is left.
+            while isinstance(attr, (BundleRef, PortRef)):
                 attr = self.resolve_bundleref(attr)
 
             if isinstance(attr, NoConn):  # Invalid
